@@ -420,7 +420,7 @@ func checkLongintSiblings(p *Prog, r *Report) {
 		s := &Sim{Fn: rf, Atom: func(ssa.Value) (bool, bool) { return false, false }, Completed: func(ret *ssa.Return) bool { return isNilConst(retResults(ret)[0]) },
 			Record: func(in ssa.Instruction) string {
 				if st, ok := in.(*ssa.Store); ok {
-					if c, idx := extractOf(st.Val); c != nil && idx == 0 && strings.HasSuffix(calleeName(c), ".Conn).ReadInt32") {
+					if isWireInt32(st.Val) {
 						_, f := fieldOfAddr(st.Addr)
 						if f != nil {
 							return f.Name()
@@ -582,4 +582,34 @@ func checkNumbering(p *Prog, r *Report, w *wireExtractor) {
 		}
 		r.Cond(okR, rule, "receiver sorts by Name with < before returning the list", "-", "see C09/LOOKUP-MATCHES-SORT")
 	}
+}
+
+// isWireInt32: v is the value of one Conn.ReadInt32, read directly or by a
+// helper that performs exactly that one read and returns its value whenever it
+// returns a nil error.
+func isWireInt32(v ssa.Value) bool {
+	isRead := func(x ssa.Value) bool {
+		c, idx := extractOf(x)
+		return c != nil && idx == 0 && strings.HasSuffix(calleeName(c), ".Conn).ReadInt32")
+	}
+	if isRead(v) {
+		return true
+	}
+	call, h, i, _, rets := helperOKReturns(v)
+	if call == nil || len(rets) == 0 {
+		return false
+	}
+	for _, ret := range rets {
+		if !isRead(retResults(ret)[i]) {
+			return false
+		}
+	}
+	reads := 0
+	allCalls(h, func(c ssa.CallInstruction) {
+		n := calleeName(c)
+		if strings.Contains(n, ".Conn).Read") || n == "io.ReadFull" || n == "encoding/binary.Read" {
+			reads++
+		}
+	})
+	return reads == 1
 }
